@@ -45,7 +45,7 @@ func c16Main(args []string) error {
 			size = []int{0, 1, 2, n, 1000}[cr.intn(5)]
 			delay = []time.Duration{0, time.Millisecond, 10 * time.Millisecond}[cr.intn(3)]
 		}
-		path := fmt.Sprintf("%s/c16_%d.db", *dir, id)
+		path := fmt.Sprintf("%s/c16_%d_%d.db", *dir, os.Getpid(), id)
 		os.Remove(path)
 		db, err := bolt.Open(path, 0600, &bolt.Options{NoSync: true})
 		if err != nil {
